@@ -792,9 +792,14 @@ def add_exotics(rng: random.Random, form: dict, kinds, p=0.5) -> list[str]:
                         r["image"] = "small.png"
                     _translated(rng, r, col, langs, delim, ["g.png", "pic.jpg"], p_plain=0.4)
         elif kind == "group_truth":
+            # one spelling per column: a second alias of a column the sheet already has is (rightly) rejected
+            have = {"_".join(k.split()).lower(): k for r in survey for k in r}
+            cols_ = [have.get("relevant", have.get("relevance", "relevant")), have.get("required", "required")]
+            ro = [v for k, v in have.items() if k in ("readonly", "read_only")]
+            cols_.append(ro[0] if ro else "readonly")
             for r in survey:
                 if r.get("type", "").startswith(("begin group", "begin repeat")) and rng.random() < 0.7:
-                    r[rng.choice(["readonly", "relevant", "required"])] = rng.choice(["yes", "TRUE", "no", "true()", "false", "Yes"])
+                    r[rng.choice(cols_)] = rng.choice(["yes", "TRUE", "no", "true()", "false", "Yes"])
         elif kind == "two_instance_exprs":
             # the same text with two instance() expressions in two places (two languages, or two rows)
             lst = _fresh(form, "dl")
